@@ -333,8 +333,8 @@ ReadChecks(o, e) ==
             \cup (IF ok /\ Len(e.kvs) > 0 THEN V(e.hdr >= e.kvs[1][2], "HeaderCoversData") ELSE {})
       [] o.op \in {"list", "stream"} ->
             (IF R < o.fl0 THEN V(~ok, "BelowFloorRefused") ELSE {})
-            \cup (IF R >= floor /\ R <= cm /\ R > 0 THEN V(ok, "ReadableServed") ELSE {})
-            \cup (IF ok /\ R >= floor /\ R <= cm
+            \cup (IF R >= floor /\ (o.rev = 0 \/ o.rev <= o.cm0) /\ R > 0 THEN V(ok, "ReadableServed") ELSE {})
+            \cup (IF ok /\ R >= floor /\ (o.rev = 0 \/ o.rev <= o.cm0)
                   THEN LET ref == RangeRef(hv, KS, R, o.lo, o.hi, o.limit)
                            exp == KvTuples(ref.kvs) IN
                        (IF TouchesStar(R, o.lo, o.hi)
@@ -451,6 +451,7 @@ M_SuccessMeansWritten   == NoViol("SuccessMeansWritten")
 M_DeleteReturnsPrev     == NoViol("DeleteReturnsPrev")
 \* (keys that ever held a client value equal to the deletion marker are judged by TombValueReadable)
 M_IndexAgrees           == \A k \in KS : IndexAgreesK(idx[k], ver[k]) \/ (\E x \in hv[k] : x.val = STAR)
+M_Writable              == \A k \in KS : Writable(idx[k], ver[k]) \/ (\E x \in hv[k] : x.val = STAR)
 M_UniqueRevision        == NoViol("UniqueRevision")
 M_RealTimeOrder         == NoViol("RealTimeOrder")
 M_HeaderCoversData      == NoViol("HeaderCoversData")
